@@ -3709,20 +3709,26 @@ pub fn lift_fn(ctx: &mut Ctx, blk: &Block) -> Result<(String, Value), String> {
         if let Some(rest) = cname0.strip_prefix('@') {
             let (callee, k) = rest.split_once('.').ok_or("closure=@callee.k:<param>:<type>")?;
             let k: usize = k.parse().map_err(|_| "closure=@callee.k:<param>:<type>")?;
-            struct FindCall<'x> { callee: String, arg: Option<&'x syn::Expr>, k: usize }
+            // `callee#n`: the n-th call (0-based, source order)
+            let (callee, skip) = match callee.split_once('#') { Some((c, n)) => (c, n.parse::<usize>().map_err(|_| "closure=@callee#n.k:<param>:<type>")?), None => (callee, 0) };
+            struct FindCall<'x> { callee: String, arg: Option<&'x syn::Expr>, k: usize, skip: usize }
             impl<'ast> syn::visit::Visit<'ast> for FindCall<'ast> {
                 fn visit_expr_call(&mut self, c: &'ast syn::ExprCall) {
                     if self.arg.is_none() {
                         if let syn::Expr::Path(p) = &*c.func {
                             if p.path.segments.last().map(|s| s.ident == self.callee).unwrap_or(false) {
-                                self.arg = c.args.iter().nth(self.k);
+                                if self.skip == 0 {
+                                    self.arg = c.args.iter().nth(self.k);
+                                } else {
+                                    self.skip -= 1;
+                                }
                             }
                         }
                     }
                     syn::visit::visit_expr_call(self, c);
                 }
             }
-            let mut fc = FindCall { callee: callee.to_string(), arg: None, k };
+            let mut fc = FindCall { callee: callee.to_string(), arg: None, k, skip };
             syn::visit::Visit::visit_block(&mut fc, f.block);
             match fc.arg {
                 Some(syn::Expr::Path(p)) if p.path.get_ident().is_some() => cname_owned = p.path.get_ident().unwrap().to_string(),
@@ -3779,12 +3785,14 @@ pub fn lift_fn(ctx: &mut Ctx, blk: &Block) -> Result<(String, Value), String> {
             syn::visit::Visit::visit_block(&mut needed, &body_blk);
             // the closure's own parameter shadows an outer binding of the same name
             needed.0.retain(|n| *n != cl_param);
+            // L25b: variables listed in `tail_locals=` are parameters of the lifted closure - the slice stops at them
+            let cut: Vec<String> = blk.opt("tail_locals").unwrap_or("").split(';').filter_map(|kv| kv.split_once(':').map(|(n, _)| n.trim().to_string())).collect();
             let mut keep: Vec<syn::Stmt> = Vec::new();
             for st in f.block.stmts[..k].iter().rev() {
                 if let syn::Stmt::Local(l) = st {
                     let mut bound = Ids(vec![]);
                     syn::visit::Visit::visit_pat(&mut bound, &l.pat);
-                    if bound.0.iter().any(|b| needed.0.contains(b)) {
+                    if bound.0.iter().any(|b| needed.0.contains(b) && !cut.contains(b)) {
                         if let Some(init) = &l.init {
                             syn::visit::Visit::visit_expr(&mut needed, &init.expr);
                         }
@@ -3820,6 +3828,13 @@ pub fn lift_fn(ctx: &mut Ctx, blk: &Block) -> Result<(String, Value), String> {
         }
         stmts.extend(body_blk.stmts.iter().cloned());
         synth_block = Some(syn::Block { brace_token: Default::default(), stmts });
+        if blk.opt("tail_locals").is_some() {
+            params.clear();
+            for kv in blk.opt("tail_locals").unwrap_or("").split(';').filter(|x| !x.is_empty()) {
+                let (n, t) = kv.split_once(':').ok_or("tail_locals=name:type;...")?;
+                params.push((n.trim().to_string(), t.trim().to_string()));
+            }
+        }
         params.push((pname.to_string(), pty.to_string()));
     }
     // L28 tail-as-function: `tail_from=<local> tail_locals=a:T;b:U ret=<type>` lifts the statements from the binding of
